@@ -79,9 +79,9 @@ def generators(tier, seed):
                   chunk="all", max_chunks=0, max_calls=10 if q else 12, max_faults=1 if q else 2, inv="ObsOk TokInv"))
     tx_big = [[5, 6], [8191, 5], [8192, 5], [8193, 6], [5, 8187, 22], [65537, 22], [131075, 5]]
     if not q:
-        tx_big += [[22, 8169, 5], [8191, 8193], [65536, 65535, 6], [5, 6, 8181, 22], [131075, 131075]]
+        tx_big += [[22, 8169, 5], [8191, 8193], [65536, 65535, 6]]
     g.append(dict(name="tx_edge", machine="tokio", ins=[[]], outs=tx_big, modes=["free"],
-                  chunk="edge", max_chunks=3 if q else 4, max_calls=9 if q else 11, max_faults=1 if q else 2, inv="ObsOk TokInv"))
+                  chunk="edge", max_chunks=3, max_calls=9 if q else 10, max_faults=1, inv="ObsOk TokInv"))
     # (b) both directions interleaved
     g.append(dict(name="mix", machine="tokio", ins=[[5, 6]] if q else [[5, 6], [22, 8193]], outs=[[6, 5]] if q else [[6, 5], [8192, 5]], modes=["free"],
                   chunk="edge", max_chunks=2, max_calls=8 if q else 9, max_faults=1, inv="ObsOk PkInv TokInv"))
@@ -94,7 +94,7 @@ def generators(tier, seed):
 
 DESIGN = {
     "quick": ["MC_Framing_Pk", "MC_Framing_TokioRxQ", "MC_Framing_TokioTxQ", "MC_Framing_TokioMix", "MC_Framing_Buf"],
-    "thorough": ["MC_Framing_Pk", "MC_Framing_TokioRx", "MC_Framing_TokioTx", "MC_Framing_TokioMix", "MC_Framing_Buf"],
+    "thorough": ["MC_Framing_Pk", "MC_Framing_PkT", "MC_Framing_TokioRx", "MC_Framing_TokioTx", "MC_Framing_TokioMix", "MC_Framing_TokioMixT", "MC_Framing_Buf"],
 }
 
 
